@@ -1,6 +1,6 @@
-// Command vharness is the Go side of the conformance layer: it replays TLC-generated
-// cases into the real osv-scalibr code and records traces from it (DESIGN.md section 3).
-package main
+// Package hlib holds what every conformance binary shares: sub-command dispatch, parallel
+// ndjson case mapping and panic capture (DESIGN.md section 3).
+package hlib
 
 import (
 	"bufio"
@@ -13,19 +13,23 @@ import (
 	"sync"
 )
 
-type env struct {
-	in, out, tmp string
-	workers      int
-	args         map[string]string
+// Env carries the command line of one sub-command invocation.
+type Env struct {
+	In, Out, Tmp string
+	Workers      int
+	Args         map[string]string
 }
 
-type subcmd func(e *env) error
+// Subcmd is one harness sub-command.
+type Subcmd func(e *Env) error
 
-var registry = map[string]subcmd{}
+var registry = map[string]Subcmd{}
 
-func register(name string, f subcmd) { registry[name] = f }
+// Register adds a sub-command (call from init).
+func Register(name string, f Subcmd) { registry[name] = f }
 
-func main() {
+// Main dispatches os.Args to the registered sub-commands.
+func Main() {
 	if len(os.Args) < 2 {
 		names := []string{}
 		for n := range registry {
@@ -41,18 +45,18 @@ func main() {
 		os.Exit(2)
 	}
 	fs := flag.NewFlagSet(os.Args[1], flag.ExitOnError)
-	e := &env{args: map[string]string{}}
-	fs.StringVar(&e.in, "in", "", "input ndjson")
-	fs.StringVar(&e.out, "out", "", "output ndjson")
-	fs.StringVar(&e.tmp, "tmp", os.TempDir(), "scratch dir")
-	fs.IntVar(&e.workers, "workers", runtime.NumCPU(), "parallel workers")
+	e := &Env{Args: map[string]string{}}
+	fs.StringVar(&e.In, "in", "", "input ndjson")
+	fs.StringVar(&e.Out, "out", "", "output ndjson")
+	fs.StringVar(&e.Tmp, "tmp", os.TempDir(), "scratch dir")
+	fs.IntVar(&e.Workers, "workers", runtime.NumCPU(), "parallel workers")
 	var kv multi
 	fs.Var(&kv, "a", "extra key=value argument (repeatable)")
 	_ = fs.Parse(os.Args[2:])
 	for _, s := range kv {
 		for i := 0; i < len(s); i++ {
 			if s[i] == '=' {
-				e.args[s[:i]] = s[i+1:]
+				e.Args[s[:i]] = s[i+1:]
 				break
 			}
 		}
@@ -68,15 +72,15 @@ type multi []string
 func (m *multi) String() string     { return fmt.Sprint(*m) }
 func (m *multi) Set(s string) error { *m = append(*m, s); return nil }
 
-// mapCases reads ndjson lines from e.in, applies fn to each in parallel and writes one ndjson
-// line per result to e.out (order not preserved; every result carries the line index "i").
-func mapCases(e *env, fn func(idx int, raw []byte) (any, error)) error {
-	inf, err := os.Open(e.in)
+// MapCases reads ndjson lines from e.In, applies fn to each in parallel and writes one ndjson
+// line per result to e.Out (order not preserved; every result carries the line index "i").
+func MapCases(e *Env, fn func(idx int, raw []byte) (any, error)) error {
+	inf, err := os.Open(e.In)
 	if err != nil {
 		return err
 	}
 	defer inf.Close()
-	outf, err := os.Create(e.out)
+	outf, err := os.Create(e.Out)
 	if err != nil {
 		return err
 	}
@@ -91,7 +95,7 @@ func mapCases(e *env, fn func(idx int, raw []byte) (any, error)) error {
 	var mu sync.Mutex
 	var wg sync.WaitGroup
 	var firstErr error
-	nw := e.workers
+	nw := e.Workers
 	if nw < 1 {
 		nw = 1
 	}
@@ -136,8 +140,8 @@ func mapCases(e *env, fn func(idx int, raw []byte) (any, error)) error {
 	return firstErr
 }
 
-// safely runs f and converts a panic into a string.
-func safely(f func()) (panicked string) {
+// Safely runs f and converts a panic into a string.
+func Safely(f func()) (panicked string) {
 	defer func() {
 		if r := recover(); r != nil {
 			buf := make([]byte, 4096)
